@@ -161,6 +161,7 @@ def extra(defs, lab, ab, src, label_max, name_max, lim, LIM):
     boo("chain_ge", ge(m.group(1))); nat("chain_lim", lim(m.group(2)))
     text_items(defs, lab, src)
     message_zonefile_items(defs, ab, lim, LIM)
+    slicing_items(defs, ab)
 
 
 def message_zonefile_items(defs, ab, lim, LIM):
@@ -195,6 +196,51 @@ def message_zonefile_items(defs, ab, lim, LIM):
     boo("zf_name_ge", ge(m.group(1))); nat("zf_name_lim", num(m.group(2)))
     if len(re.findall(r"\.chain\(", b)) != 5:
         raise GenError("scan_name: expected 5 chain() constructions (every exit goes through Chain::new)")
+
+
+def slicing_items(defs, ab):
+    """is_label_start / check_bounds / split / truncate / parent / into_relative /
+    strip_suffix of Name and RelativeName: shapes pinned, constants emitted"""
+    def nat(name, v): defs.append((name, "nat", "%d%%nat" % v))
+    def boo(name, v): defs.append((name, "bool", "true" if v else "false"))
+    rel = strip_comments(read("src/base/name/relative.rs"))
+    HEAD = r"^\s*if index == 0 \{\s*return true;\s*\}\s*let mut tmp = self\.as_slice\(\);\s*while !tmp\.is_empty\(\) \{\s*let \(label, tail\) = Label::split_from\(tmp\)\.unwrap\(\);\s*let len = label\.len\(\) \+ " + NUM + r";\s*"
+    TAIL = r"\s*index -= len;\s*tmp = tail;\s*\}\s*false\s*$"
+    b = fn_body(ab, "is_label_start", after="impl<Octs: AsRef<[u8]> + ?Sized> Name<Octs>")
+    m = one(HEAD + r"if index < len \|\| len == " + NUM + r" \{\s*return false;\s*\} else if index == len \{\s*return true;\s*\}" + TAIL, b, "Name::is_label_start")
+    nat("ils_len_add", num(m.group(1))); nat("ils_root_len", num(m.group(2)))
+    b = fn_body(rel, "is_label_start", after="impl<Octs: AsRef<[u8]> + ?Sized> RelativeName<Octs>")
+    m = one(HEAD + r"match index\.cmp\(&len\) \{\s*Ordering::Less => return false,\s*Ordering::Equal => return true,\s*_ => \{\}\s*\}" + TAIL, b, "RelativeName::is_label_start")
+    if num(m.group(1)) != defs[-2][2] and ("%d%%nat" % num(m.group(1))) != defs[-2][2]:
+        raise GenError("RelativeName::is_label_start adds a different constant to the label length")
+    CB = (r"^\s*match bounds\.start_bound\(\)\.cloned\(\) \{\s*Bound::Included\(idx\) => self\.check_index\(idx\),\s*Bound::Excluded\(_\) => \{\s*panic!\(\"excluded lower bounds not supported\"\);\s*\}\s*Bound::Unbounded => \{\}\s*\}\s*"
+          r"match bounds\.end_bound\(\)\.cloned\(\) \{\s*Bound::Included\(idx\) => self\s*\.check_index\(idx\.checked_add\(1\)\.expect\(\"end bound too big\"\)\),\s*Bound::Excluded\(idx\) => self\.check_index\(idx\),\s*Bound::Unbounded => \{")
+    b = fn_body(ab, "check_bounds", after="impl<Octs: AsRef<[u8]> + ?Sized> Name<Octs>")
+    one(CB + r"\s*panic!\(\"unbounded end bound \(results in absolute name\)\"\)\s*\}\s*\}\s*$", b, "Name::check_bounds")
+    b = fn_body(rel, "check_bounds", after="impl<Octs: AsRef<[u8]> + ?Sized> RelativeName<Octs>")
+    one(CB + r"\}\s*\}\s*$", b, "RelativeName::check_bounds")
+    for src_, nm in ((ab, "Name"), (rel, "RelativeName")):
+        b = fn_body(src_, "check_index")
+        one(r"^\s*if !self\.is_label_start\(index\) \{\s*panic!\(\"index not at start of a label\"\);\s*\}\s*$", b, nm + "::check_index")
+        for f, arg in (("split", "mid"), ("truncate", "len"), ("slice", "&range"), ("range", "&range")):
+            b = fn_body(src_, f, after="fn check_bounds")
+            chk = "check_bounds" if arg.startswith("&") else "check_index"
+            one(r"^\s*self\." + chk + r"\(" + re.escape(arg) + r"\);", b, "%s::%s checks its index first" % (nm, f))
+    for f in ("slice_from", "range_from"):
+        b = fn_body(ab, f, after="fn check_bounds")
+        one(r"^\s*self\.check_index\(begin\);", b, "Name::%s checks its index first" % f)
+    b = fn_body(ab, "split_first", after="fn check_bounds")
+    one(r"^\s*if self\.compose_len\(\) == 1 \{\s*return None;\s*\}\s*let label = self\.iter\(\)\.next\(\)\.unwrap\(\);\s*Some\(\(label, self\.split\(label\.len\(\) \+ 1\)\.1\)\)\s*$", b, "Name::split_first")
+    b = fn_body(rel, "split_first", after="fn check_bounds")
+    one(r"^\s*if self\.is_empty\(\) \{\s*return None;\s*\}\s*let label = self\.iter\(\)\.next\(\)\?;\s*Some\(\(label, self\.split\(label\.len\(\) \+ 1\)\.1\)\)\s*$", b, "RelativeName::split_first")
+    b = fn_body(ab, "into_relative")
+    m = one(r"^\s*let len = self\.0\.as_ref\(\)\.len\(\) - " + NUM + r";\s*self\.0\.truncate\(len\);", b, "Name::into_relative")
+    nat("into_relative_sub", num(m.group(1)))
+    b = fn_body(ab, "strip_suffix", after="fn check_bounds")
+    one(r"^\s*if self\.ends_with\(base\) \{\s*let len = self\.0\.as_ref\(\)\.len\(\) - usize::from\(base\.compose_len\(\)\);\s*Ok\(self\.truncate\(len\)\)\s*\} else \{\s*Err\(self\)\s*\}\s*$", b, "Name::strip_suffix")
+    b = fn_body(rel, "strip_suffix", after="fn check_bounds")
+    one(r"^\s*if self\.ends_with\(base\) \{\s*let idx = self\.0\.as_ref\(\)\.len\(\) - usize::from\(base\.compose_len\(\)\);\s*self\.0\.truncate\(idx\);\s*Ok\(\(\)\)\s*\} else \{", b, "RelativeName::strip_suffix")
+    boo("slicing_shapes_pinned", True)
 
 
 def byte_lit(t):
